@@ -14,17 +14,29 @@
 (* Functions and variables run through the same code (the variable side lacks only the              *)
 (* symbol_already_belongs_to_a_function test); the model has one kind.                               *)
 (*                                                                                                  *)
-(* Dev names the deviation of the code from the property that the model mirrors:                    *)
+(* The variable dev (fixed along a behaviour) names the deviations of the code from the property     *)
+(* that the model mirrors:                                                                          *)
 (*   "walk-stops-at-main"   the walk `for (a = sym->get_next_alias(); a && !a->is_main_symbol(); ..)` *)
 (*                          covers the whole chain only if sym is the main symbol.                    *)
-EXTENDS Naturals, Sequences, FiniteSets, TLC
+(*   "lookup-precedes-main-hint"                                                                     *)
+(*                          function_is_suppressed / variable_is_suppressed run *before*              *)
+(*                          build_function_decl / build_var_decl and ask *_symbol_is_exported(addr),  *)
+(*                          i.e. the main symbol the table happens to have at that address; the hint  *)
+(*                          update_main_symbol(addr, DIE name) comes only afterwards.  If that main   *)
+(*                          symbol is not public (or, in a kernel binary, not exported) the DIE is    *)
+(*                          dropped although it names a public / exported alias.                      *)
+(* dev = {} is the code as the property wants it (invariant Ideal), dev = AllDev the code as it is   *)
+(* (invariant Faithful: the partition holds wherever no named deviation applies), dev = {d} isolates *)
+(* d (Witness prints the small cases in which the partition then fails).                             *)
+(* "pub" of a symbol stands for is_public(), and in a Linux kernel binary for is_public() and        *)
+(* is_in_ksymtab() -- the two tests *_symbol_is_exported applies.                                    *)
+EXTENDS Naturals, Sequences, FiniteSets, TLC, Json
 
-CONSTANTS N,         \* maximal number of symbols
-          Addrs,     \* addresses
+CONSTANTS Addrs,     \* addresses
           MaxDies,   \* maximal number of DIEs that describe a function at one of the addresses
-          Dev
+          Plans      \* what one TLC run explores: a set of [dev, n]: the value of dev and the maximal number of symbols
 
-AllDev == {"walk-stops-at-main"}
+AllDev == {"walk-stops-at-main", "lookup-precedes-main-hint"}
 
 (* A symbol table row: [pub |-> is_public(), addr |-> address].  The symbol's name is its index.    *)
 (* A DIE: [name |-> index of the symbol it is named after, or 0 for a name no symbol of the table   *)
@@ -36,8 +48,10 @@ VARIABLES tab,      \* the table (sequence of rows)
           dies,     \* DIEs still to read
           seen,     \* names of the DIEs read so far
           decls,    \* corpus::get_functions(): sequence of [name, sym, id]
+          dropped,  \* names of DIEs the suppression test discarded (history, for DeviatesLookup)
+          dev,      \* see above
           phase     \* "read" | "done"
-vars == <<tab, main, chain, amap, dies, seen, decls, phase>>
+vars == <<tab, main, chain, amap, dies, seen, decls, dropped, dev, phase>>
 
 Idx == 1..Len(tab)
 RangeOf(s) == {s[j] : j \in 1..Len(s)}
@@ -48,17 +62,18 @@ FirstAt(t, a) == CHOOSE i \in 1..Len(t) : t[i].addr = a /\ \A j \in 1..Len(t) : 
 ChainAt(t, a) == LET F[i \in 0..Len(t)] == IF i = 0 THEN <<>> ELSE IF t[i].addr = a THEN Append(F[i-1], i) ELSE F[i-1]
                  IN F[Len(t)]
 
-Tables == UNION {[1..n -> [pub : BOOLEAN, addr : Addrs]] : n \in 1..N}
+Tables(N) == UNION {[1..n -> [pub : BOOLEAN, addr : Addrs]] : n \in 1..N}
 DieSeqs(t) ==
   LET D == {[name |-> k, addr |-> t[k].addr] : k \in 1..Len(t)} \cup {[name |-> 0, addr |-> a] : a \in {t[i].addr : i \in 1..Len(t)}}
   IN UNION {[1..m -> D] : m \in 0..MaxDies}
 
-Init == /\ tab \in Tables
+Init == \E p \in Plans :
+        /\ tab \in Tables(p.n) /\ dev = p.dev
         /\ main = [i \in Idx |-> FirstAt(tab, tab[i].addr)]
         /\ chain = [a \in AddrsUsed |-> ChainAt(tab, a)]
         /\ amap = [a \in AddrsUsed |-> FirstAt(tab, a)]
         /\ dies \in DieSeqs(tab)
-        /\ seen = {} /\ decls = <<>> /\ phase = "read"
+        /\ seen = {} /\ decls = <<>> /\ dropped = {} /\ phase = "read"
 
 (* elf_symbol::get_next_alias: the successor in the cyclic chain; none if the symbol is alone *)
 Next_(i) == LET c == chain[tab[i].addr]
@@ -85,19 +100,25 @@ ReadDie ==
   /\ phase = "read" /\ dies # <<>>
   /\ LET d == Head(dies)
          a == d.addr
+         pre == amap[a]                                   \* what lookup_symbol(addr) returns before the hint
          m == NewMain(a, d.name)
-         s == IF tab[m].pub THEN m ELSE 0                 \* function_symbol_is_exported: lookup by address, public test
-     IN /\ main' = [i \in Idx |-> IF tab[i].addr = a THEN m ELSE main[i]]
-        /\ amap' = [amap EXCEPT ![a] = m]
-        /\ decls' = IF s # 0 /\ ~AlreadyBelongs(s)
-                    THEN MaybeAdd(decls, [name |-> d.name, sym |-> s, id |-> FnId(d.name, s)])
-                    ELSE decls
-        /\ seen' = seen \cup {d.name}
+         s == IF tab[m].pub THEN m ELSE 0                 \* *_symbol_is_exported: lookup by address, public (and exported) test
+     IN IF "lookup-precedes-main-hint" \in dev /\ ~tab[pre].pub
+        THEN \* function_is_suppressed: "if (!symbol) return true" -- the DIE is never built
+             /\ dropped' = dropped \cup {d.name} /\ seen' = seen \cup {d.name}
+             /\ UNCHANGED <<main, amap, decls>>
+        ELSE /\ main' = [i \in Idx |-> IF tab[i].addr = a THEN m ELSE main[i]]
+             /\ amap' = [amap EXCEPT ![a] = m]
+             /\ decls' = IF s # 0 /\ ~AlreadyBelongs(s)
+                         THEN MaybeAdd(decls, [name |-> d.name, sym |-> s, id |-> FnId(d.name, s)])
+                         ELSE decls
+             /\ seen' = seen \cup {d.name}
+             /\ UNCHANGED dropped
   /\ dies' = Tail(dies)
-  /\ UNCHANGED <<tab, chain, phase>>
+  /\ UNCHANGED <<tab, chain, dev, phase>>
 
 Finish == /\ phase = "read" /\ dies = <<>> /\ phase' = "done"
-          /\ UNCHANGED <<tab, main, chain, amap, dies, seen, decls>>
+          /\ UNCHANGED <<tab, main, chain, amap, dies, seen, decls, dropped, dev>>
 
 Next == ReadDie \/ Finish
 Spec == Init /\ [][Next]_vars
@@ -105,7 +126,7 @@ Spec == Init /\ [][Next]_vars
 ------------------------------------------------------------------------------------------------------
 (* corpus::priv::get_unreferenced_function_symbols *)
 WalkFrom(s) ==            \* ids marked "referenced" for a declaration whose symbol is s
-  IF "walk-stops-at-main" \in Dev
+  IF "walk-stops-at-main" \in dev
   THEN LET W[k \in 0..Len(tab)] ==        \* the k first steps of `for (a = next(s); a && !is_main(a); a = next(a))`
              IF k = 0 THEN [at |-> Next_(s), acc |-> {s}, stop |-> ~HasAliases(s)]
              ELSE LET w == W[k-1] IN
@@ -127,10 +148,20 @@ Partition ==
     /\ \A k \in 1..Len(decls) : decls[k].sym \in Public      \* every interface is attached to a public symbol of the table
     /\ \A i \in Public : i \in seen => i \in Attached        \* an exported symbol that has debug info is in the interface
 
-(* Where the code as it is departs: a declaration whose symbol is no longer the main symbol of its  *)
-(* chain when the unreferenced symbols are computed (necessary condition).                           *)
-DeviatesWalk == \E k \in 1..Len(decls) : main[decls[k].sym] # decls[k].sym
-OnlyNamedDeviations == ~DeviatesWalk => Partition
+(* Where the code as it is departs (necessary conditions): a declaration whose symbol is no longer  *)
+(* the main symbol of its chain when the unreferenced symbols are computed; a DIE naming a public    *)
+(* symbol that the suppression test discarded.                                                      *)
+DeviatesWalk   == \E k \in 1..Len(decls) : main[decls[k].sym] # decls[k].sym
+DeviatesLookup == \E i \in Public : i \in dropped
+OnlyNamedDeviations == (~DeviatesWalk /\ ~DeviatesLookup) => Partition
+
+PlanQuick    == {[dev |-> {}, n |-> 4], [dev |-> AllDev, n |-> 3], [dev |-> {"walk-stops-at-main"}, n |-> 3], [dev |-> {"lookup-precedes-main-hint"}, n |-> 3]}
+PlanThorough == {[dev |-> {}, n |-> 4], [dev |-> AllDev, n |-> 4], [dev |-> {"walk-stops-at-main"}, n |-> 3], [dev |-> {"lookup-precedes-main-hint"}, n |-> 3]}
+
+Ideal    == dev = {} => Partition
+Faithful == dev = AllDev => OnlyNamedDeviations
+Witness  == (Cardinality(dev) = 1 /\ phase = "done" /\ Len(tab) <= 3 /\ Len(decls) + Cardinality(dropped) <= 2 /\ ~Partition)
+            => PrintT(ToJson([witness |-> CHOOSE d \in dev : TRUE, tab |-> tab, seen |-> seen, decls |-> decls, main |-> main, dropped |-> dropped]))
 
 (* sanity of the transcription: the chain structure stays what elf_symbol maintains *)
 TypeOK == /\ \A i \in Idx : main[i] \in RangeOf(chain[tab[i].addr])
